@@ -376,6 +376,11 @@ class MakeDllRun(object):
             it.models[os.remove] = it.models[os.unlink]
             it.models[os.replace] = lambda it_, a, k: ev.append(("replace", str_expr(a[0]), str_expr(a[1]))) or None
             it.models[os.rename] = it.models[os.replace]
+            # shutil.move is a rename only within one file system; otherwise a copy into the destination
+            it.models[shutil.move] = lambda it_, a, k: ev.append(("move", str_expr(a[0]), str_expr(a[1]))) or None
+            it.models[shutil.copy] = lambda it_, a, k: ev.append(("copy", str_expr(a[0]), str_expr(a[1]))) or None
+            it.models[shutil.copy2] = it.models[shutil.copy]
+            it.models[shutil.copyfile] = it.models[shutil.copy]
             it.models[shutil.rmtree] = lambda it_, a, k: ev.append(("rmtree", str_expr(a[0]))) or None
             it.models[os.rmdir] = it.models[shutil.rmtree]
             it.models[os.getpid] = lambda it_, a, k: Sym(z3.Int("pid"))
